@@ -9,6 +9,9 @@ hand-written transcription (IO/JsonWriter.lean), tied by the correspondence run.
 -/
 import BlueskyVerif.Lemmas.C34
 
+-- simp sets name generated constants that happen not to be needed for the current source
+set_option linter.unusedSimpArgs false
+
 namespace BlueskyVerif.C34
 open BlueskyVerif.JsonWriter
 
@@ -110,6 +113,30 @@ theorem C34_array_text (w : Writer) (fs : FS) (s e : Doc) (mids : List Doc) (u :
     rw [m3 q hq, openWrite_get]
     simp [hq]
 
+
+/-- Examined: the stop document never arrives.  The file then is `"[\n"` followed by `dumps ++ ",\n"`
+    for every document so far -- it has no closing bracket (and does not parse, see the `example` at the
+    end); the statement of C34 is about completed runs only. -/
+theorem C34_array_unfinished_text (w : Writer) (fs : FS) (s : Doc) (mids : List Doc) (u : String)
+    (hs : s.name = "start") (hu : s.uid = some u)
+    (hm : ∀ d ∈ mids, d.name ≠ "start" ∧ d.name ≠ "stop") :
+    (runCalls arrayCall w fs (s :: mids)).2.1.get (arrayFile w u)
+      = some ("[\n" ++ concatAll ((s :: mids).map (·.text ++ ",\n"))) := by
+  have h0 := arrayCall_start w fs s u hs hu
+  have hw1 : (Writer.mk (some (arrayFile w u))).filename = some (arrayFile w u) := rfl
+  have hget0 : (openWrite fs (arrayFile w u) .w ("[\n" ++ s.text ++ ",\n")).get (arrayFile w u)
+      = some ("[\n" ++ s.text ++ ",\n") := by rw [openWrite_get]; simp
+  obtain ⟨_, m2, _, _⟩ := array_mids (arrayFile w u) mids hm _ hw1 _ _ hget0
+  simp only [runCalls, h0]
+  rw [m2]
+  simp [concatAll, String.append_assoc]
+
+/-- Examined: documents before any start document, no constructor `filename`: `self.dirname / None`
+    raises TypeError and nothing is written. -/
+theorem C34_array_before_start (fs : FS) (d : Doc) (h : d.name ≠ "start") :
+    arrayCall ⟨none⟩ fs d = (⟨none⟩, fs, .typeError) := by
+  unfold arrayCall
+  by_cases h2 : d.name = "stop" <;> simp [arrayStartName, arrayStopName, h, h2]
 
 /-! ### JSONWriter: the file parses as the array of the records -/
 
